@@ -1322,6 +1322,25 @@ theorem annotate_forms_agree (s : BinsSel) (W px : Frame) (b0 b1 k1 k2 : Nat) (r
     annotate_selector_correct s W px k1 k2 replace hn hW hwide, hwhole]
   exact ⟨rfl, rfl⟩
 
+/-- non-vacuity of `annotate_selector_correct` / `annotate_forms_agree`: an integer-encoded
+three-bin table behind a selector; two pixels (fewer than bins: window branch through
+`sel[1:3]`), ids inside `[1, 3)` -/
+example :
+    let t : Stored := ⟨[("chrom", .int), ("end", .int), ("start", .int)],
+      [[.int 0, .int 10, .int 0], [.int 0, .int 17, .int 10], [.int 1, .int 7, .int 0]]⟩
+    let s : BinsSel := ⟨t, ["c0", "c1"], .default, 3⟩
+    let W : Frame := ⟨["chrom", "start", "end"], [0, 1, 2],
+      [[.str "c0", .int 0, .int 10], [.str "c0", .int 10, .int 17], [.str "c1", .int 0, .int 7]], false⟩
+    let px : Frame := ⟨["bin1_id", "bin2_id", "count"], [7, 3], [[.int 2, .int 1, .int 5], [.int 1, .int 1, .int 9]], false⟩
+    s.getRows (.slice none none none) = .ok W
+    ∧ annotate px (.selector s) false
+      = .ok ⟨["chrom1", "start1", "end1", "chrom2", "start2", "end2", "bin1_id", "bin2_id", "count"], [7, 3],
+          [[.str "c1", .int 0, .int 7, .str "c0", .int 10, .int 17, .int 2, .int 1, .int 5],
+           [.str "c0", .int 10, .int 17, .str "c0", .int 10, .int 17, .int 1, .int 1, .int 9]], false⟩
+    ∧ annotate px (.frame (framePart W 1 3)) false = annotate px (.selector s) false
+    ∧ annotate px (.frame W) false = annotate px (.selector s) false := by
+  decide
+
 /-- **annotate_empty** — the repaired behaviour (known_findings D15, 9d9fdcb): with no pixel at all,
 `annotate` against ANY frame — whatever its labels; in particular a part of the bin table that does
 not contain bin 0, or an empty one — is the empty frame with the annotated column names and the
@@ -1339,5 +1358,347 @@ example :
     annotate ⟨["bin1_id", "bin2_id", "count"], [], [], false⟩
       (.frame ⟨["chrom", "start"], [2], [[.str "c1", .int 0]], false⟩) true
     = .ok ⟨["chrom1", "start1", "chrom2", "start2", "count"], [], [], false⟩ := by decide
+
+/-! ### `Cooler.pixels(join=True)` -/
+
+/-- the annotated row of one pixel row (total form used under `IdsWithin`) -/
+def annRow (R : List Row) (k1 k2 : Nat) (mask : List Bool) (r : Row) : Row :=
+  (R.getD ((idOf k1 r).getD 0).toNat [] ++ R.getD ((idOf k2 r).getD 0).toNat []) ++ maskRow mask r
+
+theorem annotateSpec_eq_map (C : List String) (R : List Row) (px : Frame) (k1 k2 lo hi : Nat) (replace : Bool)
+    (hhi : hi ≤ R.length) (hpx : IdsWithin px k1 k2 lo hi) :
+    annotateSpec C R px replace =
+      .ok ⟨C.map (· ++ "1") ++ C.map (· ++ "2") ++ maskRow (keepMask px.cols replace) px.cols,
+           px.index, px.rows.map (annRow R k1 k2 (keepMask px.cols replace)), false⟩ := by
+  obtain ⟨hk1, hk2, hids⟩ := hpx
+  unfold annotateSpec
+  rw [hk1, hk2]
+  simp only
+  rw [mapE_ok_map (specRow R k1 k2 (keepMask px.cols replace)) (annRow R k1 k2 (keepMask px.cols replace))]
+  intro r hr
+  obtain ⟨i, j, hi', hj, _, hi2, _, hj2⟩ := hids r hr
+  unfold specRow annRow
+  rw [hi', hj]
+  simp only [Option.getD_some, Int.toNat_natCast]
+  rw [if_neg (by omega)]
+  have hRi : R[i]? = some (R.getD i []) := by
+    rw [List.getD_eq_getElem?_getD, List.getElem?_eq_getElem (by omega)]; rfl
+  have hRj : R[j]? = some (R.getD j []) := by
+    rw [List.getD_eq_getElem?_getD, List.getElem?_eq_getElem (by omega)]; rfl
+  rw [hRi, hRj]
+
+theorem idsWithin_part (px : Frame) (k1 k2 lo hi a b : Nat) (h : IdsWithin px k1 k2 lo hi) :
+    IdsWithin (framePart px a b) k1 k2 lo hi :=
+  ⟨h.col1, h.col2, fun r hr => h.ids r (mem_drop_take hr)⟩
+
+/-- annotating a part of a pixel frame against a whole bin frame is the part of the annotation -/
+theorem annotate_part (B px : Frame) (k1 k2 a b : Nat) (replace : Bool) (hB : Contig B 0)
+    (hpx : IdsWithin px k1 k2 0 B.rows.length) :
+    ∃ out, annotate px (.frame B) replace = .ok out ∧
+      annotate (framePart px a b) (.frame B) replace = .ok (framePart out a b) := by
+  have hfull : framePart B 0 B.rows.length = B := framePart_full B (by rw [hB, labels_length])
+  have h1 := annotate_correct B px 0 B.rows.length k1 k2 replace hB (Nat.le_refl _) hpx
+  have h2 := annotate_correct B (framePart px a b) 0 B.rows.length k1 k2 replace hB (Nat.le_refl _)
+    (idsWithin_part px k1 k2 0 B.rows.length a b hpx)
+  rw [hfull] at h1 h2
+  rw [h1, h2, annotateSpec_eq_map B.cols B.rows px k1 k2 0 B.rows.length replace (Nat.le_refl _) hpx,
+    annotateSpec_eq_map B.cols B.rows (framePart px a b) k1 k2 0 B.rows.length replace (Nat.le_refl _)
+      (idsWithin_part px k1 k2 0 B.rows.length a b hpx)]
+  refine ⟨_, rfl, ?_⟩
+  simp only [framePart, Except.ok.injEq, Frame.mk.injEq, true_and, and_true]
+  rw [List.map_take, List.map_drop]
+
+/-- **pixels_join_slice** — `Cooler.pixels(join=True)[a:b]` is the part `[a, b)` of
+`Cooler.pixels(join=True)[:]`, provided every stored pixel refers to bins of the table (C02). -/
+theorem pixels_join_slice (t bt : Stored) (fields : Fields) (P B W : Frame) (k1 k2 a b : Nat)
+    (hP : tableGet t 0 (some (t.rows.length : Int)) (fields.resolve pixelsStd t.names).1
+      (fields.resolve pixelsStd t.names).2 = .ok P)
+    (hB : tableGet bt 0 none binsStd false = .ok B)
+    (hids : IdsWithin P k1 k2 0 B.rows.length)
+    (hW : pixelsGet t bt 0 (some (t.rows.length : Int)) fields true = .ok W) :
+    pixelsGet t bt a (some (b : Int)) fields true = .ok (framePart W a b) := by
+  have hBc : Contig B 0 := by
+    unfold tableGet at hB
+    simp only at hB
+    split at hB
+    · cases hB
+    · split at hB
+      · cases hB
+      · simp only [binsStd, List.isEmpty_cons, Bool.false_eq_true, if_false, Except.ok.injEq] at hB
+        subst hB; simp [Contig]
+  obtain ⟨out, ho1, ho2⟩ := annotate_part B P k1 k2 a b true hBc hids
+  simp only [pixelsGet, hP, hB, if_true] at hW
+  rw [ho1] at hW
+  simp only [Except.ok.injEq] at hW
+  subst hW
+  simp only [pixelsGet, tableGet_part t _ _ P a b hP, hB, if_true]
+  exact ho2
+
+
+/-! ## 7. Enum and integer chromosome encodings -/
+
+theorem sortByCode_idmap (names : List String) (k : Int) :
+    sortByCode (idmapFrom k names) = idmapFrom k names := by
+  induction names generalizing k with
+  | nil => rfl
+  | cons s rest ih =>
+    simp only [idmapFrom, sortByCode, ih]
+    cases rest with
+    | nil => rfl
+    | cons s' rest' =>
+      simp only [idmapFrom, insertCode]
+      rw [if_pos (by omega)]
+
+theorem idmap_names (names : List String) (k : Int) : (idmapFrom k names).map (·.1) = names := by
+  induction names generalizing k with
+  | nil => rfl
+  | cons s rest ih => simp only [idmapFrom, List.map_cons, ih]
+
+/-- the categories read back from the enum header `write_bins` stores are `chroms/name` itself -/
+theorem categoriesOf_idmap (names : List String) : categoriesOf (idmapFrom 0 names) = names := by
+  unfold categoriesOf
+  rw [sortByCode_idmap, idmap_names]
+
+/-- **chrom_decode_agree** — for every stored chromosome code, decoding through the HDF5 enum header
+(`get`, `convert_enum`) and decoding a plain integer column through `chroms/name` (`api.bins`) accept
+the same codes and give the same label. -/
+theorem chrom_decode_agree (names : List String) (v : Val) :
+    codeOk (categoriesOf (idmapFrom 0 names)) v = codeOk names v
+    ∧ fromCode (categoriesOf (idmapFrom 0 names)) v = fromCode names v := by
+  rw [categoriesOf_idmap]; exact ⟨rfl, rfl⟩
+
+/-- the same table with the `chrom` column declared with encoding `e` -/
+def withChromEnc (e : Enc) (cols : List (String × Enc)) : List (String × Enc) :=
+  cols.map fun c => if c.1 = "chrom" then (c.1, e) else c
+
+theorem withChromEnc_names (e : Enc) (cols : List (String × Enc)) :
+    (withChromEnc e cols).map (·.1) = cols.map (·.1) := by
+  induction cols with
+  | nil => rfl
+  | cons c cs ih =>
+    simp only [withChromEnc, List.map_cons] at ih ⊢
+    rw [ih]; split <;> rfl
+
+theorem lookupCol_withChromEnc (e : Enc) (cols : List (String × Enc)) (f : String) :
+    lookupCol (withChromEnc e cols) f =
+      (lookupCol cols f).map fun p => (p.1, if f = "chrom" then e else p.2) := by
+  induction cols with
+  | nil => rfl
+  | cons c cs ih =>
+    obtain ⟨c, e'⟩ := c
+    simp only [withChromEnc, List.map_cons] at ih ⊢
+    by_cases hcf : c = f
+    · subst hcf
+      by_cases hc : c = "chrom" <;> simp [lookupCol, hc]
+    · by_cases hc : c = "chrom"
+      · simp only [hc, if_true, lookupCol]
+        rw [if_neg (by rw [← hc]; exact hcf), if_neg (by rw [← hc]; exact hcf), ih]
+        cases lookupCol cs f <;> rfl
+      · simp only [hc, if_false, lookupCol, hcf, ih]
+        cases lookupCol cs f <;> rfl
+
+
+section decode
+variable (cols : List (String × Enc)) (rows : List Row) (names : List String)
+
+/-- enum storage with the header `write_bins` writes / plain integer storage of the same table -/
+abbrev tEnum : Stored := ⟨withChromEnc (.enum (idmapFrom 0 names)) cols, rows⟩
+abbrev tInt : Stored := ⟨withChromEnc .int cols, rows⟩
+
+theorem cell_other (r : Row) (f : String) (hf : f ≠ "chrom") :
+    cellOk (tEnum cols rows names) r f = cellOk (tInt cols rows) r f
+    ∧ cell (tEnum cols rows names) r f = cell (tInt cols rows) r f := by
+  unfold cellOk cell
+  simp only [lookupCol_withChromEnc, hf, if_false]
+  cases lookupCol cols f <;> simp
+
+theorem cell_chrom (r : Row) (k : Nat) (e : Enc) (hk : lookupCol cols "chrom" = some (k, e)) :
+    cellOk (tEnum cols rows names) r "chrom"
+      = (cellOk (tInt cols rows) r "chrom" && codeOk names (cell (tInt cols rows) r "chrom"))
+    ∧ cell (tEnum cols rows names) r "chrom" = fromCode names (cell (tInt cols rows) r "chrom") := by
+  unfold cellOk cell
+  simp only [lookupCol_withChromEnc, hk, if_true, Option.map_some, categoriesOf_idmap]
+  cases h : r[k]? with
+  | none => simp [List.getD_eq_getElem?_getD, h, codeOk]
+  | some v => simp [List.getD_eq_getElem?_getD, h]
+
+
+theorem map_set_of_nodup (fs : List String) (g g' : String → Val) (c0 : String) (j : Nat) (x : Val)
+    (hj : colIdx fs c0 = some j) (hnd : fs.Nodup) (hg : ∀ f ∈ fs, f ≠ c0 → g' f = g f) (hx : g' c0 = x) :
+    fs.map g' = (fs.map g).set j x := by
+  have hjc := colIdx_some fs c0 j hj
+  have hjlt : j < fs.length := by
+    rcases Nat.lt_or_ge j fs.length with h | h
+    · exact h
+    · rw [List.getElem?_eq_none h] at hjc; cases hjc
+  apply List.ext_getElem?
+  intro p
+  rw [List.getElem?_map, List.getElem?_set, List.getElem?_map]
+  rcases Nat.lt_or_ge p fs.length with hp | hp
+  · obtain ⟨c, hc⟩ : ∃ c, fs[p]? = some c := ⟨fs[p], List.getElem?_eq_getElem hp⟩
+    have hcm : c ∈ fs := List.mem_of_getElem? hc
+    rw [hc]
+    simp only [Option.map_some, List.length_map]
+    by_cases hcc : c = c0
+    · subst hcc
+      have : p = j := (List.getElem?_inj hp hnd).mp (hc.trans hjc.symm)
+      subst this
+      simp [hjlt, hx]
+    · have hpj : j ≠ p := by
+        intro h; subst h; rw [hjc] at hc; exact hcc (Option.some.inj hc).symm
+      rw [if_neg hpj, hg c hcm hcc]
+  · rw [List.getElem?_eq_none hp]
+    have : ¬ j = p := by omega
+    simp [this]
+
+/-- the chromosome column `api.bins` looks at is `"chrom"` at its position in the requested list -/
+theorem bins_target (keys : List String) (fields : Fields) :
+    (match fields with
+      | .one f => if f = "chrom" then some ("chrom", 0) else none
+      | _ => (colIdx (fields.resolve binsStd keys).1 "chrom").map fun j => ("chrom", j))
+    = (colIdx (fields.resolve binsStd keys).1 "chrom").map fun j => (("chrom" : String), j) := by
+  cases fields with
+  | default => rfl
+  | many fs => rfl
+  | one f => by_cases h : f = "chrom" <;> simp only [Fields.resolve, colIdx, h, if_true, if_false, Option.map_some, Option.map_none] <;> rfl
+
+theorem binsGet_eq (t : Stored) (names : List String) (lo : Int) (hi : Option Int) (fields : Fields) :
+    binsGet t names lo hi fields =
+      match tableGet t lo hi (fields.resolve binsStd t.names).1 (fields.resolve binsStd t.names).2 with
+      | .error e => .error e
+      | .ok out => binsDecode t names
+          ((colIdx (fields.resolve binsStd t.names).1 "chrom").map fun j => (("chrom" : String), j)) out := by
+  unfold binsGet
+  cases fields with
+  | default => rfl
+  | many fs => rfl
+  | one f => by_cases h : f = "chrom" <;> simp only [Fields.resolve, colIdx, h, if_true, if_false, Option.map_some, Option.map_none] <;> rfl
+
+theorem all_congr' {α} (l : List α) (p q : α → Bool) (h : ∀ x ∈ l, p x = q x) : l.all p = l.all q := by
+  induction l with
+  | nil => rfl
+  | cons x xs ih =>
+    simp only [List.all_cons, h x (by simp), ih (fun y hy => h y (by simp [hy]))]
+
+/-- **chrom_decode_agree**, whole frames: the bin table stored with the enum header and the same
+table stored with plain integer ids give the same result through `api.bins` — same rows, same
+labels, same chromosome names, and the same error when a code is not a chromosome — for every row
+range and every column argument without repeated names. -/
+theorem chrom_decode_agree_frames (lo : Int) (hi : Option Int) (fields : Fields)
+    (hnd : (fields.resolve binsStd (cols.map (·.1))).1.Nodup) :
+    binsGet (tEnum cols rows names) names lo hi fields = binsGet (tInt cols rows) names lo hi fields := by
+  rw [binsGet_eq, binsGet_eq]
+  simp only [Stored.names, withChromEnc_names]
+  generalize (fields.resolve binsStd (cols.map (·.1))).1 = fs at hnd ⊢
+  generalize (fields.resolve binsStd (cols.map (·.1))).2 = series
+  unfold tableGet
+  simp only [lookupCol_withChromEnc, Option.isSome_map]
+  by_cases g1 : (fs.all fun f => (lookupCol cols f).isSome) = true
+  · simp only [g1, Bool.not_true, Bool.false_eq_true, if_false]
+    generalize (rows.drop (pySliceIndices rows.length (some lo) hi).1).take
+      ((pySliceIndices rows.length (some lo) hi).2 - (pySliceIndices rows.length (some lo) hi).1) = raw
+    cases hj : colIdx fs "chrom" with
+    | none =>
+      have hne : ∀ f ∈ fs, f ≠ "chrom" := fun f hf h => colIdx_none_not_mem fs "chrom" hj (h ▸ hf)
+      have e1 : (raw.all fun r => fs.all fun f => cellOk (tEnum cols rows names) r f)
+          = (raw.all fun r => fs.all fun f => cellOk (tInt cols rows) r f) :=
+        all_congr' _ _ _ fun r _ => all_congr' _ _ _ fun f hf => (cell_other cols rows names r f (hne f hf)).1
+      have e2 : raw.map (fun r => fs.map (cell (tEnum cols rows names) r))
+          = raw.map (fun r => fs.map (cell (tInt cols rows) r)) :=
+        List.map_congr_left fun r _ => List.map_congr_left fun f hf =>
+          (cell_other cols rows names r f (hne f hf)).2
+      rw [e1, e2]
+      simp only [Option.map_none]
+      generalize (if (!raw.all fun r => fs.all fun f => cellOk (tInt cols rows) r f) = true then
+        (Except.error Err.value : Except Err Frame) else _) = X
+      cases X <;> rfl
+    | some j =>
+      have hjc := colIdx_some fs "chrom" j hj
+      have hmem : "chrom" ∈ fs := List.mem_of_getElem? hjc
+      have hne : fs.isEmpty = false := by cases fs <;> simp_all
+      obtain ⟨⟨k, e⟩, hk⟩ : ∃ p, lookupCol cols "chrom" = some p :=
+        Option.isSome_iff_exists.mp (List.all_eq_true.mp g1 "chrom" hmem)
+      have hdecE : ∀ out : Frame, binsDecode (tEnum cols rows names) names (some ("chrom", j)) out = .ok out := by
+        intro out
+        unfold binsDecode
+        simp only [lookupCol_withChromEnc, hk, Option.map_some, if_true]
+      have hdecI : ∀ out : Frame, binsDecode (tInt cols rows) names (some ("chrom", j)) out =
+          if !(out.rows.all fun r => codeOk names (r.getD j .nan)) then .error .value
+          else .ok { out with rows := out.rows.map fun r => r.set j (fromCode names (r.getD j .nan)) } := by
+        intro out
+        unfold binsDecode
+        simp only [lookupCol_withChromEnc, hk, Option.map_some, if_true]
+      have hcellj : ∀ r : Row, (fs.map (cell (tInt cols rows) r)).getD j .nan = cell (tInt cols rows) r "chrom" := by
+        intro r
+        rw [List.getD_eq_getElem?_getD, List.getElem?_map, hjc]; rfl
+      -- guards
+      have hg : (raw.all fun r => fs.all fun f => cellOk (tEnum cols rows names) r f)
+          = ((raw.all fun r => fs.all fun f => cellOk (tInt cols rows) r f)
+              && raw.all fun r => codeOk names (cell (tInt cols rows) r "chrom")) := by
+        rw [Bool.eq_iff_iff]
+        simp only [Bool.and_eq_true, List.all_eq_true]
+        constructor
+        · intro h
+          refine ⟨fun r hr f hf => ?_, fun r hr => ?_⟩
+          · by_cases hf' : f = "chrom"
+            · subst hf'
+              have := h r hr "chrom" hf
+              rw [(cell_chrom cols rows names r k e hk).1, Bool.and_eq_true] at this
+              exact this.1
+            · rw [← (cell_other cols rows names r f hf').1]; exact h r hr f hf
+          · have := h r hr "chrom" hmem
+            rw [(cell_chrom cols rows names r k e hk).1, Bool.and_eq_true] at this
+            exact this.2
+        · intro ⟨h1, h2⟩ r hr f hf
+          by_cases hf' : f = "chrom"
+          · subst hf'
+            rw [(cell_chrom cols rows names r k e hk).1, Bool.and_eq_true]
+            exact ⟨h1 r hr "chrom" hf, h2 r hr⟩
+          · rw [(cell_other cols rows names r f hf').1]; exact h1 r hr f hf
+      -- rows
+      have hrows : raw.map (fun r => fs.map (cell (tEnum cols rows names) r))
+          = (raw.map (fun r => fs.map (cell (tInt cols rows) r))).map
+              fun r => r.set j (fromCode names (r.getD j .nan)) := by
+        rw [List.map_map]
+        apply List.map_congr_left
+        intro r _
+        simp only [Function.comp]
+        rw [hcellj]
+        exact map_set_of_nodup fs (cell (tInt cols rows) r) (cell (tEnum cols rows names) r) "chrom" j _ hj hnd
+          (fun f _ hf' => (cell_other cols rows names r f hf').2)
+          (cell_chrom cols rows names r k e hk).2
+      have hg3 : ((raw.map (fun r => fs.map (cell (tInt cols rows) r))).all fun r => codeOk names (r.getD j .nan))
+          = raw.all fun r => codeOk names (cell (tInt cols rows) r "chrom") := by
+        rw [List.all_map]
+        apply all_congr'
+        intro r _
+        simp only [Function.comp]
+        rw [hcellj]
+      simp only [Option.map_some, hne, Bool.false_eq_true, if_false, hg]
+      by_cases g2 : (raw.all fun r => fs.all fun f => cellOk (tInt cols rows) r f) = true
+      · by_cases g3 : (raw.all fun r => codeOk names (cell (tInt cols rows) r "chrom")) = true
+        · simp only [g2, g3, Bool.and_true, Bool.not_true, Bool.false_eq_true, if_false, hdecE, hdecI, hg3, hrows]
+        · rw [Bool.not_eq_true] at g3
+          simp only [g2, g3, Bool.and_false, Bool.not_false, if_true, Bool.not_true, Bool.false_eq_true,
+            if_false, hdecI, hg3]
+      · rw [Bool.not_eq_true] at g2
+        simp only [g2, Bool.false_and, Bool.not_false, if_true]
+  · rw [Bool.not_eq_true] at g1
+    simp [g1]
+
+end decode
+
+/-- non-vacuity, at the level of whole frames: the same two-bin table stored both ways, read through
+`api.bins` with a reordered column list -/
+example :
+    let rows : List Row := [[.int 0, .int 10, .int 0], [.int 1, .int 7, .int 0]]
+    let tE : Stored := ⟨[("chrom", .enum (idmapFrom 0 ["c0", "c1"])), ("end", .int), ("start", .int)], rows⟩
+    let tI : Stored := ⟨[("chrom", .int), ("end", .int), ("start", .int)], rows⟩
+    binsGet tE ["c0", "c1"] 0 (some 2) (.many ["start", "chrom"])
+      = .ok ⟨["start", "chrom"], [0, 1], [[.int 0, .str "c0"], [.int 0, .str "c1"]], false⟩
+    ∧ binsGet tI ["c0", "c1"] 0 (some 2) (.many ["start", "chrom"])
+      = binsGet tE ["c0", "c1"] 0 (some 2) (.many ["start", "chrom"])
+    ∧ binsGet tI ["c0", "c1"] 0 (some 2) (.one "chrom") = binsGet tE ["c0", "c1"] 0 (some 2) (.one "chrom") := by
+  decide
 
 end Cooler.C14
